@@ -154,14 +154,15 @@ static void body(void) {
     int nparts = (int)vx_opt_int("--parts", 1), part = nparts > 1 ? vx_choose(nparts) : 0;
     if (nparts > 1) vx_label("rec#%d part%d/%d %s ;; len=%zu content=%zu dict=%zu", idx, part, nparts, r->name, r->flen, r->clen, r->dlen);
     else vx_label("rec#%d %s ;; len=%zu content=%zu dict=%zu", idx, r->name, r->flen, r->clen, r->dlen);
-    if ((int)r->flen > g_maxlen) { vx_obs_u64(1); return; }
+    int synth = !strncmp(r->name, "legacy-synth", 12);      /* hand-built legacy frames up to 9 KB: intact, truncations and thinned substitutions */
+    if ((int)r->flen > g_maxlen && !synth) { vx_obs_u64(1); return; }
     u8* mut = (u8*)malloc(r->flen + 1);
     const u8* dict = r->dlen ? r->dict : NULL;
     /* intact, every truncation, every single-byte substitution */
     if (run_all(r->frame, r->flen, dict, r->dlen, r->clen)) goto done;
-    int family = !strncmp(r->name, "rawtail", 7) || r->clen > 4096;      /* ~800 near-identical frames, and frames regenerating a lot: intact decode, truncations, thinned substitutions */
-    for (size_t k = 0; k < r->flen; k += (family && k + 48 < r->flen ? 8 : 1)) if ((int)(k % (size_t)nparts) == part && run_all(r->frame, k, dict, r->dlen, r->clen)) goto done;
-    for (size_t p = 0; p < r->flen; p += (family && p + 48 < r->flen ? 16 : 1)) {
+    int family = !strncmp(r->name, "rawtail", 7) || r->clen > 4096 || synth;      /* ~800 near-identical frames, and frames regenerating a lot: intact decode, truncations, thinned substitutions */
+    for (size_t k = 0; k < r->flen; k += (synth && k > 24 && k + 48 < r->flen ? 131 : family && k + 48 < r->flen ? 8 : 1)) if ((int)(k % (size_t)nparts) == part && run_all(r->frame, k, dict, r->dlen, r->clen)) goto done;
+    for (size_t p = 0; p < r->flen; p += (synth && p > 24 && p + 48 < r->flen ? 257 : family && p + 48 < r->flen ? 16 : 1)) {
         if ((int)(p % (size_t)nparts) != part) continue;
         int all = (int)r->flen <= g_allvals;
         static const int few[] = {0x01, 0x80, 0xFF, 0x7F, 0x10, 0xFE, 0x02};
